@@ -424,11 +424,11 @@ func (c13) Gen(r *Rng, tier string, emit func(string, Tok)) {
 	// them alike wherever the loop lies in the section; the oracle compares the table structure (tags and lengths of the
 	// typed entries) and leaves the typed bodies to C14
 	if !psiDescStub {
-		for k := 0; k < 60*scale; k++ {
+		for k := 0; k < 200*scale; k++ {
 			s := psiGens[1+k%5](r, 0)
 			typed := func() []*astits.Descriptor {
 				var out []*astits.Descriptor
-				for _, d := range c14GenLoop(r, 4, 70) {
+				for _, d := range c14GenLoop(r, 6, 110) {
 					if c14WfDesc(d) && c14OnlyBody(d) {
 						out = append(out, c14ExpectParsed(d))
 					}
